@@ -839,6 +839,15 @@ class RTDCBase(abc.ABC):
                     f"Encountered cyclic basin dependency '{bdict['key']}'",
                     feat_basin.CyclicBasinDependencyFoundWarning)
                 continue
+            if (bdict["type"] in ["file", "internal", "remote"]
+                    and bc[bdict["format"]].basin_type != bdict["type"]):
+                # A basin definition must not circumvent the restrictions
+                # imposed on its type (e.g. a "remote" basin that is
+                # actually a file on the local file system).
+                warnings.warn(
+                    f"Basin format '{bdict['format']}' does not match "
+                    f"basin type '{bdict['type']}'!")
+                continue
 
             # Basin initialization keyword arguments
             kwargs = {
